@@ -387,7 +387,9 @@ class I2CInitiator(Elaboratable):
             with m.State("IDLE"):
                 m.d.sync += self.busy.eq(1)
                 with m.If(self.start):
-                    with m.If(bus.scl_i & bus.sda_i):
+                    # sda_i lags the pin by the synchroniser: right after we pulled SDA low ourselves
+                    # it still reads high, so also look at our own drive (as the stop branch does).
+                    with m.If(bus.scl_i & bus.sda_i & bus.sda_o):
                         m.next = "START-SDA-L"
                     with m.Elif(~bus.scl_i):
                         m.next = "START-SCL-H"
